@@ -640,6 +640,7 @@ func (o OptW[H, T, P]) WriteTo(w io.Writer) (int64, error) {
 }
 
 var optMode int
+
 func (o *OptW[H, T, P]) ReadFrom(r io.Reader) (int64, error) {
 	var h H
 	b := h.has()
@@ -808,6 +809,5 @@ func universe() (leaves, comps []Ty) {
 	comps = append(append(d1, d2...), d3...)
 	return
 }
-
 
 // ---------------------------------------------------------------- reference reader (protocol only)
